@@ -14,6 +14,9 @@ RULE = ("40% grammar-generated histories with periodic save ticks / stop+start c
         "in 35% of these endings the message is instead handled WHILE the periodic save is in progress (op save_during: "
         "os.rename of the real save_sensors is intercepted after the nodes were serialised and the message is pumped there; "
         "the model runs the linearisation save tick, then message); "
+        "10% (>= 2.0) end with a smart sleeping node confirming exactly the desired value right after a save tick; 12% (2.2) "
+        "with a periodic save that FAILS in the pickle serialiser because the node's wake-up announcement is handled while its "
+        "desired-state table is pickled (op save_fail_during; model = the announcement alone, state still unsaved); "
         "5 versions x threaded/asyncio x plain/MQTT x JSON/pickle, 30% of the directed ones without event callback. "
         "The monitor compares a typed snapshot of the tree held at stop() with the tree the next start loads. "
         "non-trivial = distinct history with at least one stop whose state had a node and that had a save tick before it")
@@ -49,13 +52,25 @@ def build_cases(ctx):
         cfg["callback"] = rng.random() < 0.7
         cfg["persist"] = True
         kind = scenarios_a.TAIL_KINDS[i % len(scenarios_a.TAIL_KINDS)]
-        cases.append({"id": f"c14d-{ctx.seed}-{ctx.scale}-{i}", "cfg": cfg, "ops": scenarios_a.c14_directed(rng, cfg, kind)})
+        case = {"id": f"c14d-{ctx.seed}-{ctx.scale}-{i}", "cfg": cfg}
+        if i % 12 == 5:                       # failed save in the pickle serialiser (needs 2.2 and pickle)
+            cfg["ver"] = "2.2"
+            cfg.pop("spell", None)
+            case["_fmt"] = "pickle"
+            case["ops"] = scenarios_a.c14_failed_save(scenarios_a.Hist(rng, cfg))
+        elif i % 12 == 7:                     # confirmation of the desired value right after a save tick
+            cfg["ver"] = rng.choice(["2.0", "2.1", "2.2"])
+            cfg.pop("spell", None)
+            case["ops"] = scenarios_a.c14_confirm_desired(scenarios_a.Hist(rng, cfg))
+        else:
+            case["ops"] = scenarios_a.c14_directed(rng, cfg, kind)
+        cases.append(case)
     return cases
 
 
 def run(ctx, res):
     cases = build_cases(ctx)
-    root = scenarios_a.assign_persist(cases, "c14", lambda i, c: ["json", "pickle"][(i // 3) % 2])
+    root = scenarios_a.assign_persist(cases, "c14", lambda i, c: c.pop("_fmt", None) or ["json", "pickle"][(i // 3) % 2])
     try:
         recs = gwcheck.run_cases(ctx, res, cases, MONITORS, SCOPE, "c14")
     finally:
